@@ -240,6 +240,12 @@ class CMapDB:
         )
         for directory in cmap_paths:
             path = os.path.join(directory, filename)
+            # The name comes from the document: never look outside the
+            # directories that hold the character-map resources.
+            resolved_path = os.path.realpath(path)
+            resolved_directory = os.path.realpath(directory)
+            if not resolved_path.startswith(resolved_directory + os.sep):
+                continue
             if os.path.exists(path):
                 gzfile = gzip.open(path)
                 try:
